@@ -1,0 +1,14 @@
+//go:build verif
+
+package dvid
+
+// VerifYieldFunc, when set by a verification harness, is called at the named points that lie between
+// the read and the write of a read-modify-write sequence.
+var VerifYieldFunc func(site string)
+
+// VerifYield marks a point between the read and the write of a read-modify-write sequence.
+func VerifYield(site string) {
+	if f := VerifYieldFunc; f != nil {
+		f(site)
+	}
+}
